@@ -197,5 +197,136 @@ theorem mul_exact_when_fits (a b : Dec) (ha : a.mant ≠ 0) (hb : b.mant ≠ 0)
   have : a.mant * b.mant ≠ 0 := Nat.mul_ne_zero ha hb
   rw [if_neg this]
 
+/-- the numerator a (sign, mantissa) pair denotes -/
+theorem num_mk (n : Int) : Dec.num ⟨decide (n < 0), n.natAbs, 0⟩ = n := by
+  unfold num; simp only [decide_eq_true_eq]; split <;> omega
+
+/-- `floor`: the greatest integer not above the value (`value = num / 10^scale`) -/
+theorem floor_spec {d r : Dec} (h : floor d = .val r) :
+    r.scale = 0 ∧ r.num * 10 ^ d.scale ≤ d.num ∧ d.num < (r.num + 1) * 10 ^ d.scale := by
+  unfold floor at h
+  dsimp only at h
+  have hp : (0 : Int) < 10 ^ d.scale := Int.pow_pos (by decide)
+  have hid := Int.tmod_add_mul_tdiv d.num (10 ^ d.scale)
+  have hlt := Int.tmod_lt_of_pos d.num hp
+  have hgt := Int.lt_tmod_of_pos d.num hp
+  generalize hq : Int.tdiv d.num (10 ^ d.scale) = q at *
+  generalize hr : Int.tmod d.num (10 ^ d.scale) = rm at *
+  generalize hP : (10 : Int) ^ d.scale = P at *
+  have hnum : d.num = rm + P * q := hid.symm
+  have hqP : q * P = P * q := Int.mul_comm _ _
+  unfold toInt at h
+  rw [hP, hq] at h
+  split at h
+  · -- negative and inexact: q - 1
+    rename_i hc
+    simp only [Bool.and_eq_true, decide_eq_true_eq] at hc
+    have hneg : d.num ≤ 0 := by unfold num; rw [hc.1]; simp
+    have hrm0 : rm ≠ 0 := by intro h0; apply hc.2; rw [hnum, h0, hqP]; omega
+    have hrmle : rm ≤ 0 := by
+      have := Int.tmod_nonneg (a := -d.num) (10 ^ d.scale) (by omega)
+      rw [Int.neg_tmod, hP, hr] at this; omega
+    split at h; · simp at h
+    injection h with h; subst h
+    refine ⟨rfl, ?_, ?_⟩
+    · rw [num_mk, Int.sub_mul, Int.one_mul, hqP, hnum]; omega
+    · rw [num_mk, show q - 1 + 1 = q by omega, hqP, hnum]; omega
+  · rename_i hc
+    simp only [Bool.and_eq_true, decide_eq_true_eq, not_and, Decidable.not_not] at hc
+    split at h; · simp at h
+    injection h with h; subst h
+    refine ⟨rfl, ?_, ?_⟩
+    · rw [num_mk, hqP, hnum]
+      by_cases hn : d.neg = true
+      · have := hc hn; rw [hnum, hqP] at this; omega
+      · have hpos : 0 ≤ d.num := by unfold num; simp [hn]
+        have := Int.tmod_nonneg (10 ^ d.scale) hpos
+        rw [hP, hr] at this; omega
+    · rw [num_mk, Int.add_mul, Int.one_mul, hqP, hnum]; omega
+
+/-- `round`: a nearest integer to the value, the even one on a tie, with the sign of the operand -/
+theorem round_spec {d r : Dec} (h : round d = .val r) :
+    r.scale = 0 ∧ r.neg = d.neg ∧ 2 * ((r.mant : Int) * (10 ^ d.scale : Nat) - d.mant).natAbs ≤ 10 ^ d.scale ∧
+    (2 * (d.mant % 10 ^ d.scale) = 10 ^ d.scale → r.mant % 2 = 0) := by
+  unfold round at h
+  dsimp only at h
+  split at h; · simp at h
+  injection h with h; subst h
+  exact ⟨rfl, rfl, rhe_near d.mant (10 ^ d.scale) (pow10_pos _), rhe_tie_even d.mant (10 ^ d.scale)⟩
+
+/-- `fract`: what remains after removing the integer part, same sign and scale -/
+theorem fract_spec {d r : Dec} (h : fract d = .val r) :
+    r.scale = d.scale ∧ r.neg = d.neg ∧ r.mant = d.mant % 10 ^ d.scale ∧
+    d.mant = (d.mant / 10 ^ d.scale) * 10 ^ d.scale + r.mant := by
+  unfold fract at h
+  dsimp only at h
+  split at h; · simp at h
+  injection h with h; subst h
+  refine ⟨rfl, rfl, rfl, ?_⟩
+  have := Nat.div_add_mod d.mant (10 ^ d.scale)
+  rw [Nat.mul_comm] at this; exact this.symm
+
+theorem pow_split (hi lo : Nat) (h : lo ≤ hi) : (10 : Int) ^ hi = 10 ^ (hi - lo) * 10 ^ lo := by
+  rw [← Int.pow_add]; congr 1; omega
+
+/-- the comparison operators on Decimals are the order of the values `num / 10^scale` (cross-multiplied) -/
+theorem lt_iff_cross (a b : Dec) : Dec.lt a b = true ↔ a.num * 10 ^ b.scale < b.num * 10 ^ a.scale := by
+  unfold Dec.lt cmpNum
+  simp only [decide_eq_true_eq]
+  have hb : (0 : Int) < 10 ^ b.scale := Int.pow_pos (by decide)
+  have ha : (0 : Int) < 10 ^ a.scale := Int.pow_pos (by decide)
+  split
+  · rename_i h
+    rw [Nat.sub_self, Int.pow_zero, Int.mul_one, pow_split a.scale b.scale h, ← Int.mul_assoc]
+    exact (Int.mul_lt_mul_right hb).symm
+  · rename_i h
+    have h' : a.scale ≤ b.scale := by omega
+    rw [Nat.sub_self, Int.pow_zero, Int.mul_one, pow_split b.scale a.scale h', ← Int.mul_assoc]
+    exact (Int.mul_lt_mul_right ha).symm
+
+theorem le_iff_cross (a b : Dec) : Dec.le a b = true ↔ a.num * 10 ^ b.scale ≤ b.num * 10 ^ a.scale := by
+  unfold Dec.le cmpNum
+  simp only [decide_eq_true_eq]
+  have hb : (0 : Int) < 10 ^ b.scale := Int.pow_pos (by decide)
+  have ha : (0 : Int) < 10 ^ a.scale := Int.pow_pos (by decide)
+  split
+  · rename_i h
+    rw [Nat.sub_self, Int.pow_zero, Int.mul_one, pow_split a.scale b.scale h, ← Int.mul_assoc]
+    exact (Int.mul_le_mul_right hb).symm
+  · rename_i h
+    have h' : a.scale ≤ b.scale := by omega
+    rw [Nat.sub_self, Int.pow_zero, Int.mul_one, pow_split b.scale a.scale h', ← Int.mul_assoc]
+    exact (Int.mul_le_mul_right ha).symm
+
+theorem eqNum_iff_cross (a b : Dec) : Dec.eqNum a b = true ↔ a.num * 10 ^ b.scale = b.num * 10 ^ a.scale := by
+  unfold Dec.eqNum cmpNum
+  simp only [decide_eq_true_eq]
+  have hb : (10 : Int) ^ b.scale ≠ 0 := Int.ne_of_gt (Int.pow_pos (by decide))
+  have ha : (10 : Int) ^ a.scale ≠ 0 := Int.ne_of_gt (Int.pow_pos (by decide))
+  split
+  · rename_i h
+    rw [Nat.sub_self, Int.pow_zero, Int.mul_one, pow_split a.scale b.scale h, ← Int.mul_assoc]
+    exact (Int.mul_eq_mul_right_iff hb).symm
+  · rename_i h
+    have h' : a.scale ≤ b.scale := by omega
+    rw [Nat.sub_self, Int.pow_zero, Int.mul_one, pow_split b.scale a.scale h', ← Int.mul_assoc]
+    exact (Int.mul_eq_mul_right_iff ha).symm
+
 end Dec
+
+namespace Time
+/-- a span built from `i` units reads back as `i` units (week … second), whenever it is representable -/
+theorem units_roundtrip (u i d : Int) (hu : u = 604800 ∨ u = 86400 ∨ u = 3600 ∨ u = 60 ∨ u = 1)
+    (h : tryUnits u i = some d) : numUnits u d = i := by
+  unfold tryUnits at h
+  split at h
+  · unfold trySeconds at h
+    split at h
+    · injection h with h; subst h
+      unfold numUnits numSeconds nsPerSec
+      rw [Int.mul_tdiv_cancel _ (by decide), Int.mul_tdiv_cancel _ (by rcases hu with rfl | rfl | rfl | rfl | rfl <;> decide)]
+    · simp at h
+  · simp at h
+end Time
+
 end Reval
